@@ -416,6 +416,80 @@ def run_fragmented(params, known):
     return dict(name=params['name'], evaluations=count, nontrivial_keys=sorted(keys), violations=violations, known=[], samples=[])
 
 
+def run_bib_and_bcb(params, known):
+    """The ordinary pairing: the source protects the payload with an integrity block AND a
+    confidentiality block (BIB first, then BCB over the same target).  A receiver holding both keys,
+    with acceptance on, is handed exactly the plaintext - for plaintexts of 0, 1, 16 and 255 octets -
+    and nothing of it is readable on the wire."""
+    from .. import env as _env
+    _env.load_bp()
+    from bp.app.bpsec import SecAssociation, SecOperation
+    from pycose import algorithms
+    from .c05 import impl_container
+    violations = []
+    kinds = set()
+    count = 0
+    keys = set()
+    MAC_KID = b'mac-key-2'
+
+    def viol(kind, detail, case):
+        if kind in kinds:
+            return
+        kinds.add(kind)
+        v = Violation(PROP, 'confidentiality', kind, dict(), '%r: %s' % (case, detail)).as_dict()
+        v['case'] = case
+        violations.append(v)
+    for kind in ('enc0', 'enc-kw'):
+        for length in (0, 1, 16, 255):
+            for order in ('bib-then-bcb', 'bcb-then-bib'):
+                count += 1
+                case = dict(kind=kind, length=length, templates=order)
+                src = BpWorld(dict(node_id=SRC, tx_routes=[('.*', 'dtn://next/', None)]))
+                cose = src.cose()
+                ivs = [bytes(range(12))]
+                if kind == 'enc0':
+                    ekey = sym_key(KEY, ['EncryptOp', 'DecryptOp'], 'A256GCM')
+                    bcb = SecOperation(sec_type='bcb', role='source', priv_key_id=KID, content_iv=ivs)
+                else:
+                    ekey = sym_key(KEY, ['WrapOp', 'UnwrapOp'], 'A256KW')
+                    bcb = SecOperation(sec_type='bcb', role='source', priv_key_id=KID, content_alg=algorithms.A256GCM,
+                                       content_key=bytes(range(100, 132)), content_iv=ivs)
+                mkey = sym_key(bytes(range(50, 82)), ['MacCreateOp', 'MacVerifyOp'], 'HMAC256')
+                mkey.kid = MAC_KID
+                bib = SecOperation(sec_type='bib', role='source', priv_key_id=MAC_KID)
+                cose.sym_key_store[KID] = ekey
+                cose.sym_key_store[MAC_KID] = mkey
+                cose.sec_assoc.append(SecAssociation(src_pat=re.compile(re.escape(SRC) + '.*'), dst_pat=re.compile('.*'), tgt_blk_types=[1],
+                                                     templates=[bib, bcb] if order == 'bib-then-bcb' else [bcb, bib]))
+                src.send(impl_container(plain_bundle(length, False)))
+                src.quiesce()
+                sent = src.sent()
+                if len(sent) != 1 or src.api_errors or src.escaped:
+                    viol('source-cannot-apply-confidentiality-block', '%d bundles, %r %r' % (len(sent), src.api_errors[:1], src.escaped[:1]), case)
+                    continue
+                plain = plaintext(length)
+                types = [b['type'] for b in B.decode(sent[0])['blocks']]
+                if B.T_BCB not in types or B.T_BIB not in types:
+                    viol('security-blocks-missing', 'block types on the wire %r' % (types,), case)
+                if contains_window(sent[0], plain):
+                    viol('plaintext-window-on-the-wire', 'an 8-octet window of the plaintext appears in the encoded bundle', case)
+                rcv = BpWorld(dict(node_id=NODE, rx_routes=[('^dtn://node/.*', 'deliver')], tx_routes=[('.*', 'dtn://next/', None)], accept_after_verify=True))
+                rc = rcv.cose()
+                rc.sym_key_store[KID] = sym_key(KEY, ['WrapOp', 'UnwrapOp'], 'A256KW') if kind == 'enc-kw' else sym_key(KEY, ['EncryptOp', 'DecryptOp'], 'A256GCM')
+                mk2 = sym_key(bytes(range(50, 82)), ['MacCreateOp', 'MacVerifyOp'], 'HMAC256')
+                mk2.kid = MAC_KID
+                rc.sym_key_store[MAC_KID] = mk2
+                rcv.receive(sent[0])
+                rcv.quiesce()
+                got = [bytes.fromhex(b[2]) for d in rcv.probe.seen for b in d['blocks'] if b[0] == 1]
+                keys.add('%s/%d/%s' % (kind, length, order))
+                if rcv.escaped:
+                    viol('exception-escaped-idle-callback', '%s: %s' % (rcv.escaped[-1][0], rcv.escaped[-1][2]), case)
+                elif got != [plain]:
+                    viol('recovered-plaintext-differs', 'delivered %r, plaintext %r (errors %r)' % (got, plain, rcv.api_errors[:1]), case)
+    return dict(name=params['name'], evaluations=count, nontrivial_keys=sorted(keys), violations=violations, known=[], samples=[])
+
+
 def run_admin_target(params, known):
     '''The target is the payload of a status report the source node generates itself (the block
     then has a parsed record attached): with a confidentiality association that matches, what
@@ -478,6 +552,7 @@ def run_admin_target(params, known):
 def scenarios(tier):
     out = []
     out.append(dict(name='admin-record-target', kind='enum', runner='run_admin_target', params=dict(name='admin-record-target'), weight=5))
+    out.append(dict(name='bib-and-bcb', kind='enum', runner='run_bib_and_bcb', params=dict(name='bib-and-bcb'), weight=5))
     out.append(dict(name='fragmented', kind='enum', runner='run_fragmented', params=dict(name='fragmented'), weight=5))
     for kind in ('enc0', 'enc-kw'):
         for length in LENGTHS:
@@ -493,6 +568,7 @@ def scenarios(tier):
 
 
 ASSUMPTIONS = [
+    'integrity and confidentiality block over the same payload (both template orders, both key modes, plaintexts of 0 / 1 / 16 / 255 octets), receiver with both keys and acceptance on',
     'route MTU below the protected bundle (five length / MTU pairs, both key modes): every transmitted fragment is searched for plaintext and the whole is delivered to a receiver with the key, in order and reversed',
     'trusted base: pycose and cryptography (AES-GCM) primitives',
     'one scenario whose target is the payload of a status report generated by the source node itself (a block with parsed content attached)',
